@@ -662,6 +662,54 @@ def _r6(rep, src, label, full):
             else:
                 rep.ok('C20.R4', qf.site, '%s(%s) on %s' % (mname, args[0], wlabel), 'answers %r, indexes unchanged' % (want,))
 
+    # queries over SEVERAL names, and the pair iterators: the answer is the reference relation's, and asking changes nothing -- neither
+    # the dictionaries nor the content of any set in them (a result that is accumulated in place into the first set found IS that
+    # set of the index), whichever name comes first; asked twice, the answer is the same
+    multi = {'tags_of_packages': ([['pkg-one', 'pkg-three'], ['pkg-three', 'pkg-one'], ['pkg-two', 'pkg-one', 'pkg-absent']], lambda ns: set().union(*[GEN.get(n_, set()) for n_ in ns])),
+             'packages_of_tags': ([['role::a', 'use::c'], ['use::c', 'role::b'], ['role::a', 'zz::absent', 'role::b']], lambda ns: set().union(*[_inverse(GEN).get(n_, set()) for n_ in ns])),
+             'iter_packages_tags': ([None], lambda _n: {(p_, frozenset(t_)) for p_, t_ in GEN.items()}),
+             'iter_tags_packages': ([None], lambda _n: {(t_, frozenset(p_)) for t_, p_ in _inverse(GEN).items()})}
+    for mname, (arglists, ref_) in sorted(multi.items()):
+        qf = src.mod(M).funcs.get('DB.' + mname)
+        if qf is None or not all(p_ in GEN for p_ in ('pkg-one', 'pkg-two', 'pkg-three')):
+            continue
+        rep.saw_func(qf)
+        for names in arglists:
+            heap, it, me = _world(src)
+            what = '%s(%s) answers from the relation and leaves the collection as it was' % (mname, '' if names is None else names)
+            want = ref_(names)
+            before = (_plain(heap, heap.objs[me.name]['db'])[0], _plain(heap, heap.objs[me.name]['rdb'])[0])
+            try:
+                answers = []
+                for _twice in (1, 2):
+                    r_ = it.call(H.Closure(qf.node, {}, me, qf.cls), [] if names is None else [heap.new_list(list(names))])
+                    if isinstance(r_, (set, frozenset)):
+                        got = set(r_)
+                    else:
+                        got = set()
+                        for x_ in it.seq(r_):
+                            x_ = tuple(it.seq(x_)) if not isinstance(x_, tuple) else x_
+                            got.add((x_[0], frozenset(x_[1])) if len(x_) == 2 and isinstance(x_[1], (set, frozenset)) else x_)
+                    answers.append(got)
+            except H.Raised as x:
+                rep.fail('C20.R4', qf.site, what, 'raises %s (line %d)' % (x.exc, x.lineno), where=qf.where)
+                continue
+            except AnalysisError as e_:
+                rep.note('C20.R4: %s is outside the vocabulary of the interpreter (%s)' % (qf.site, str(e_)[:80]))
+                continue
+            after = (_plain(heap, heap.objs[me.name]['db'])[0], _plain(heap, heap.objs[me.name]['rdb'])[0])
+            if after != before:
+                idx_ = 0 if after[0] != before[0] else 1
+                k_ = sorted(k2 for k2 in set(after[idx_]) | set(before[idx_]) if after[idx_].get(k2) != before[idx_].get(k2))[0]
+                rep.fail('C20.R4', qf.site, what, 'the query changes the collection: afterwards the %s index lists %s for %r (it listed %s) while the other index is as before -- the two '
+                         'indexes are no longer inverse (the answer was accumulated in place into a set of the index)' % (
+                             'package' if idx_ == 0 else 'tag', sorted(after[idx_].get(k_, [])), k_, sorted(before[idx_].get(k_, []))), where=qf.where)
+            elif answers[0] != want or answers[1] != want:
+                rep.fail('C20.R4', qf.site, what, 'answers %s%s; the relation says %s' % (
+                    sorted(answers[0], key=repr)[:8], '' if answers[1] == answers[0] else ' and then %s' % sorted(answers[1], key=repr)[:8], sorted(want, key=repr)[:8]), where=qf.where)
+            else:
+                rep.ok('C20.R4', qf.site, what, 'as the reference relation, asked twice; indexes unchanged')
+
 
 def check(src, rep, tier):
     rep.explanation = ('C20: (generic relation) every collection-returning method of DB, reverse(), insert() histories, the reader (with and without a '
